@@ -35,7 +35,11 @@ def make_input(volumes, freqs, weights=None):
     for i in range(nv):
         qs = [models.QPointData((0.0, 0.0, 0.1 * j), [float(x) for x in freqs[i, j]]) for j in range(nq)]
         vols.append(models.VolumeData(0.0, float(volumes[i]), -1.0, qs))
-    w = [models.QPointWeight((0.0, 0.0, 0.1 * j), 1.0) for j in range(nq)]
+    if weights is None:
+        # the interpolation must not depend on the q-point weights at all: use a mixture incl. zero weights
+        # (band-path points appended to a mesh carry weight 0)
+        weights = [float((3 * j + 1) % 4) for j in range(nq)]
+    w = [models.QPointWeight((0.0, 0.0, 0.1 * j), float(weights[j])) for j in range(nq)]
     return models.QHAInputData(nv, nq, npm, 1, npm // 3, w, vols)
 
 
